@@ -69,6 +69,15 @@ def mk_instr_cls(cls, kinds, values):
     return cls.from_operands([mk_operand(k, v) for k, v in zip(kinds, values)])
 
 
+def edit_in_place(instr, donor) -> None:
+    """Overwrite the operand fields of `instr` with those of `donor` (same class), the way a consumer such as the NV
+    transpiler edits instructions it was handed (`instr.line = ...`, `instr.reg0 = ...`)."""
+    import dataclasses
+    for f in dataclasses.fields(instr):
+        if f.name not in ("id", "mnemonic", "lineno"):
+            setattr(instr, f.name, getattr(donor, f.name))
+
+
 def describe_operand(o):
     from netqasm.lang import operand as op
     if isinstance(o, op.Register):
